@@ -3,7 +3,7 @@
    Definitions only. *)
 From Coq Require Import List String NArith Bool.
 From FIM Require Import Base.Str Model.Sliver2Kinds Gen.PropMap Model.Sliver2Map Model.Sliver2Deep
-  Model.Sliver2Graph.
+  Model.Sliver2Graph Model.Sliver2GraphWF Model.Sliver2Store.
 Import ListNotations.
 
 (* an implementation result: None = an exception was raised (classes and messages are not compared) *)
@@ -26,12 +26,15 @@ Definition check_flat (c : kind * attrs * option props * option attrs) : bool :=
 
 (* stream `deep`: a sliver tree; the implementation's deep dictionary, and the trees rebuilt through
    the dictionary, through JSON and through a graph on the in-memory backend *)
-Definition check_deep (c : tree * option dd * option tree * option tree * option tree) : bool :=
-  let '(t, odict, via_dict, via_json, via_graph) := c in
+Definition check_deep (c : tree * option dd * option tree * option tree * option tree * option tree * option tree) : bool :=
+  let '(t, odict, via_dict, via_json, via_graph, via_single_rm, via_disjoint_rm) := c in
   agrees dd_eqb (to_dict t) odict &&
   agrees tree_eqb (bind (to_dict t) (from_dict (t_kind t))) via_dict &&
   agrees tree_eqb (bind (sliver_to_json t) (sliver_from_json (t_kind t))) via_json &&
-  agrees tree_eqb_unordered (graph_roundtrip t) via_graph.
+  agrees tree_eqb_unordered (graph_roundtrip t) via_graph &&
+  (* the same sliver written into a graph after a removal, on the single store and on the disjoint store *)
+  agrees tree_eqb_unordered (roundtrip_after_removal t) via_single_rm &&
+  agrees tree_eqb_unordered (roundtrip_after_removal t) via_disjoint_rm.
 
 (* stream `element`: operations on one element of a live topology, starting from the node's
    properties as the backend reports them *)
